@@ -52,6 +52,12 @@ def main():
         meta["files_changed"] = sh(["git", "-C", wt, "diff", "--stat"]).stdout.strip().splitlines()[-1].strip()
         d1 = sh(["/venv/bin/python", demo], env=env)
         meta["ran"].append(dict(cmd="demo.py on the changed tree", exit=d1.returncode, tail=(d1.stdout + d1.stderr).strip()[-300:]))
+        prev = os.path.join(HOME, "seeded", sid, "meta.json")
+        if a.skip_baseline and os.path.exists(prev):
+            old = json.load(open(prev))
+            if old.get("baseline_with_change"):
+                meta["baseline_with_change"] = old["baseline_with_change"]
+            meta["earlier_runs"] = old.get("earlier_runs", []) + [dict(checks={c: dict(exit=v["exit"], signatures=v["signatures"][:3]) for c, v in old.get("checks", {}).items()})]
         if not a.skip_baseline:
             t = sh(BASELINE, cwd=wt, env=env)
             tl = [l for l in t.stdout.splitlines() if " passed" in l or " failed" in l]
@@ -71,7 +77,7 @@ def main():
                 os.makedirs(os.path.join(HOME, "seeded", sid), exist_ok=True)
                 shutil.copy(m.group(1), os.path.join(HOME, "seeded", sid, f"replay_{c}.json"))
         ok_demo = d0.returncode == 0 and d1.returncode == 1
-        ok_base = a.skip_baseline or "245 passed" in meta.get("baseline_with_change", "")
+        ok_base = "245 passed" in (meta.get("baseline_with_change") or "")
         meta["confirmed"] = bool(ok_demo and ok_base)
         meta["detected_by"] = [c for c, v in meta["checks"].items() if v["exit"] == 1]
         out = os.path.join(HOME, "seeded", sid)
